@@ -9,7 +9,7 @@ def build(chk):
     chk.assumptions_used.update(["A-REAL", "A-NP"])
     kl.obligations(chk)
     chk.bounded_native("polar KL functions: orthonormal, piston-free, diagonalise the Kolmogorov covariance with the returned variances (positive, non-increasing, tip = tilt); repeated bases agree", "polar",
-                       "8 bases (ri 0.1-0.5, nr 9-16 odd and even, up to 24 functions), npp = 5 nr, tolerances 1e-8 / 2e-3", "aotools/functions/karhunenLoeve.py:gkl_basis,gkl_fcom,gkl_kernel,gkl_sfi")
+                       "8 bases (ri 0.1-0.5, nr 9-16 odd and even, up to 24 functions), npp = 5 nr, tolerances 1e-8 (orthonormality, per-variance) / 1e-9 (off-diagonal covariance)", "aotools/functions/karhunenLoeve.py:gkl_basis,gkl_fcom,gkl_kernel,gkl_sfi")
     chk.bounded_native("Cartesian rendering: pupil = annulus indicator (odd and even sizes), zero outside when masked, follows the polar function within the neighbouring polar cells", "cartesian",
                        "dim in {16,24,33,17,40} x ri in {0.25,0.4}, 8 modes", "aotools/functions/karhunenLoeve.py:make_kl,pcgeom,pol2car")
     chk.notes.append("gkl_fcom (two `while True` selection loops over eigen-decompositions) and pol2car (map_coordinates resampling) are outside the executor's subset: their clauses are bounded native stand-ins only")
